@@ -165,6 +165,40 @@ def o_whole_residues(ctx):
             ctx.claim(site_claim_name(left, lab), rep.count(lab) == 1, detail='removed %r: %r reported %d times' % (sorted(removed_res), lab, rep.count(lab)))
 
 
+def o_first_conformation_wiped(ctx):
+    """a truncation may remove every atom of the first conformation (an empty first MODEL; no atom with a blank or A
+    alternate-location tag): the remaining conformations are still a structure, the run completes and reports them"""
+    import propka.output as O
+    case = ctx.choice('case', ['empty-first-MODEL', 'only-hydrogens-in-first-MODEL', 'alt-locs-B-and-C-only', 'second-MODEL-empty'])
+    t = M.text('pep8')
+    if case == 'empty-first-MODEL':
+        text = 'MODEL        1\nENDMDL\nMODEL        2\n' + t + 'ENDMDL\n'
+    elif case == 'only-hydrogens-in-first-MODEL':
+        text = 'MODEL        1\n' + H.pdb_line(1, 'H', 'GLY', 'A', 1, 0.0, 0.0, 0.0, element='H') + 'ENDMDL\nMODEL        2\n' + t + 'ENDMDL\n'
+    elif case == 'second-MODEL-empty':
+        text = 'MODEL        1\n' + t + 'ENDMDL\nMODEL        2\nENDMDL\n'
+    else:
+        out = []
+        for l in t.split('\n'):
+            if l.startswith('ATOM'):
+                out.append(l[:16] + 'B' + l[17:])
+                out.append(l[:16] + 'C' + l[17:30] + '%8.3f' % (float(l[30:38]) + 0.2) + l[38:])
+            elif l:
+                out.append(l)
+        text = '\n'.join(out) + '\n'
+    try:
+        mol = M.run(text)
+        txt = O.get_determinant_section(mol, 'AVR', mol.version.parameters) + O.get_summary_section(mol, 'AVR', mol.version.parameters)
+    except Exception as e:  # noqa
+        import traceback
+        ctx.claim('no-unhandled-error', False, detail='%s: %s: %s\n%s' % (case, type(e).__name__, e, traceback.format_exc()[-600:]))
+        return
+    ctx.claim('no-unhandled-error', True)
+    rep = M.reported(mol)
+    for lab in ('ASP  29 A', 'ASP  30 A'):
+        ctx.claim('site-with-defining-atom-reported', rep.count(lab) == 1, detail='%s: %r reported %d times' % (case, lab, rep.count(lab)))
+
+
 def o_rejections(ctx):
     """no atom records / unknown file type -> ValueError (nothing else)"""
     import propka.run as R
@@ -224,6 +258,9 @@ def obligations(tier):
                               stop_on_violation=False))
     obs.append(Obligation('O2-whole-residues[pep8]', o_whole_residues, code=code, bounds='8-residue peptide: every proper subset of residues deleted (255 structures)',
                           claim_doc='no exception; remaining side-chain sites reported once', max_paths=100000, shards=8, stop_on_violation=False))
+    obs.append(Obligation('O2-first-conformation-wiped', o_first_conformation_wiped, code=['propka/input.py:read_pdb', 'propka/molecular_container.py:MolecularContainer.average_of_conformations', 'propka/run.py:single'],
+                          bounds='the 8-residue peptide as: MODEL 2 after an empty MODEL 1; after a MODEL 1 holding one hydrogen; MODEL 1 before an empty MODEL 2; alternate locations B and C only', kind='table-check',
+                          claim_doc='no exception; the side-chain sites are reported', stop_on_violation=False))
     obs.append(Obligation('O3-rejections', o_rejections, code=['propka/input.py:read_molecule_file', 'propka/input.py:read_pdb'],
                           bounds='6 inputs: empty, remarks only, only ignorable water, only hydrogens, wrong / missing extension', kind='table-check',
                           claim_doc='ValueError and nothing else', stop_on_violation=False))
